@@ -152,6 +152,42 @@ func TestZZVerifEmit(t *testing.T) {
 			})
 		}
 	}
+	// floating point: arithmetic and comparisons on both float types, negation,
+	// and every conversion between the 11 integer types and the 2 float types
+	zzFloatKinds := []types.BasicKind{types.Float32, types.Float64}
+	for _, op := range []token.Token{token.ADD, token.SUB, token.MUL, token.QUO, token.EQL, token.NEQ, token.LSS, token.LEQ, token.GTR, token.GEQ} {
+		for _, k := range zzFloatKinds {
+			op, k := op, k
+			T := types.Typ[k]
+			res := types.Type(T)
+			if isCmp(op) {
+				res = boolT
+			}
+			mk(fmt.Sprintf("binop__%s__%s__%s", zzOpName(op), zzName(k), zzName(k)), []types.Type{T, T}, res, func(b Builder, fn Function) Expr {
+				return b.BinOp(op, fn.Param(0), fn.Param(1))
+			})
+		}
+	}
+	for _, k := range zzFloatKinds {
+		k := k
+		T := types.Typ[k]
+		mk(fmt.Sprintf("unop__SUB__%s", zzName(k)), []types.Type{T}, T, func(b Builder, fn Function) Expr { return b.UnOp(token.SUB, fn.Param(0)) })
+		for _, ki := range zzIntKinds {
+			ki := ki
+			mk(fmt.Sprintf("conv__%s__%s", zzName(ki), zzName(k)), []types.Type{types.Typ[ki]}, T, func(b Builder, fn Function) Expr {
+				return b.Convert(prog.Type(T, InGo), fn.Param(0))
+			})
+			mk(fmt.Sprintf("conv__%s__%s", zzName(k), zzName(ki)), []types.Type{T}, types.Typ[ki], func(b Builder, fn Function) Expr {
+				return b.Convert(prog.Type(types.Typ[ki], InGo), fn.Param(0))
+			})
+		}
+		for _, k2 := range zzFloatKinds {
+			k2 := k2
+			mk(fmt.Sprintf("conv__%s__%s", zzName(k), zzName(k2)), []types.Type{T}, types.Typ[k2], func(b Builder, fn Function) Expr {
+				return b.Convert(prog.Type(types.Typ[k2], InGo), fn.Param(0))
+			})
+		}
+	}
 	if err := os.WriteFile(out, []byte(pkg.String()), 0o644); err != nil {
 		t.Fatal(err)
 	}
